@@ -5,12 +5,12 @@ From TL Require Import Lib.Base Model.Config.
 
 Definition config_actual : quirks :=
   [ "section_not_read[improper-logging]"; "section_not_read[stateless-class]"; "section_not_read[lazy-ignores]";
-    "section_not_read[unwrap-abuse]"; "section_not_read[clone-abuse]"; "section_not_read[blocking-async]";
+    
     "enabled_option_missing[file-header]"; "enabled_option_missing[lazy-ignores]";
     "whole_config_fallback[collection-pipeline]";
     "language_override_ignored[dry]";
-    "cli_override_skips_language_sections[nesting]"; "cli_override_skips_language_sections[srp]";
-    "repo_ignore_not_loaded[json]"; "repo_ignore_not_loaded[pyproject]"; "repo_ignore_not_loaded[--config]";
+    "cli_override_skips_language_sections[srp]";
+    "repo_ignore_not_loaded[pyproject]"; "repo_ignore_not_loaded[--config]";
     "global_config_option_ignored"; "dry_config_option_merges_section_only";
-    "pyproject_unparsable_swallowed"; "wrong_type_swallowed";
+    "wrong_type_swallowed";
     "language_block_error_retried_without_language"; "invalid_top_level_value_shadowed_by_language_block" ].
